@@ -17,4 +17,5 @@ DevFrontInsert == {"frontInsert"}
 DevDedupByPosition == {"dedupByPosition"}
 DevResetKeepsEvents == {"resetKeepsEvents"}
 DevClampAdoptsDt == {"clampAdoptsDt"}
+DevRecordStepTooShort == {"recordStepTooShort"}
 =============================================================================
